@@ -413,6 +413,61 @@ pub fn families() -> Vec<Box<dyn Family>> {
             },
         ),
         family(
+            "concurrent_diffs",
+            "the same diff while OTHER THREADS are diffing at the same moment: 2..4 threads released by a barrier run LCS (tables of 1.2 .. 6 million cells each: mid-sized unrelated inputs sharing landmarks), Myers and Patience diffs of their own inputs simultaneously, several rounds; every result must equal what the same call returns when nothing else is running (no process-wide state, budget or cache may leak into the ops)",
+            false,
+            1,
+            |cfg| if cfg.tiny { 1 } else { cfg.tier.pick(6, 40) },
+            |idx, cfg, out| {
+                let mut rng = Rng::for_case(cfg.seed, "c20.concurrent", idx);
+                let nthreads = 2 + rng.below(3);
+                let inputs: Vec<(Algorithm, Vec<u32>, Vec<u32>)> = (0..nthreads)
+                    .map(|t| {
+                        let alg = if t < 2 || rng.chance(1, 2) { Algorithm::Lcs } else { ALGS[rng.below(2)] };
+                        let (n, m) = if cfg.tiny { (6, 7) } else { (rng.range(1100, 2400), rng.range(1100, 2400)) };
+                        let k = rng.range(1, 40);
+                        let (a, b) = gen::landmark_pair(&mut rng, n, m, k, 1);
+                        (alg, a, b)
+                    })
+                    .collect();
+                out.sample(|| format!("{} threads: {:?}", nthreads, inputs.iter().map(|(alg, a, b)| format!("{} {}x{}", alg_name(*alg), a.len(), b.len())).collect::<Vec<_>>()));
+                out.nontrivial(&("concurrent", idx, nthreads));
+                // reference: each diff on its own
+                let alone: Vec<Result<Vec<DiffOp>, String>> = inputs.iter().map(|(alg, a, b)| guard(|| capture_diff_slices(*alg, a, b))).collect();
+                for round in 0..3 {
+                    let barrier = std::sync::Barrier::new(nthreads);
+                    let together: Vec<Result<Vec<DiffOp>, String>> = std::thread::scope(|s| {
+                        let hs: Vec<_> = inputs
+                            .iter()
+                            .map(|(alg, a, b)| {
+                                let barrier = &barrier;
+                                s.spawn(move || {
+                                    barrier.wait();
+                                    guard(|| capture_diff_slices(*alg, a, b))
+                                })
+                            })
+                            .collect();
+                        hs.into_iter().map(|h| h.join().unwrap_or_else(|_| Err("thread panicked".into()))).collect()
+                    });
+                    for (t, (x, y)) in alone.iter().zip(together.iter()).enumerate() {
+                        out.eval();
+                        out.count("diffs_run_while_other_threads_were_diffing");
+                        match (x, y) {
+                            (Ok(x), Ok(y)) => {
+                                if x != y {
+                                    out.violation(
+                                        "determinism.depends_on_other_threads",
+                                        format!("round {}: {} diff of {} x {} items run while {} other threads were diffing gives {} ops {} but run alone {} ops {}", round, alg_name(inputs[t].0), inputs[t].1.len(), inputs[t].2.len(), nthreads - 1, y.len(), fmt_ops(y), x.len(), fmt_ops(x)),
+                                    );
+                                }
+                            }
+                            (_, Err(p)) | (Err(p), _) => out.violation("panic", format!("concurrent diff: {}", p)),
+                        }
+                    }
+                }
+            },
+        ),
+        family(
             "seq_big",
             "long sequences of mostly unique items (2100..9000 items; thorough up to 70000) with 20..80 swapped / moved blocks so that the choice of Patience anchors matters: repeated calls, another thread, relabelling to u64 — all three algorithms where affordable (LCS: windowed edits only)",
             false,
